@@ -533,12 +533,36 @@ def _has_dummy(body):
     return any(i["tag"] == "dummy" for i in spec.Analysis.flatten(body))
 
 
+def canonicalise(lst, tail_ok=True):
+    """Rewrite a body so that unbounded items only occur at the end of a segment / of the data
+    (canonical profile, DESIGN 4.1). Only makes instructions more bounded, which never
+    invalidates a tree."""
+    for i, ins in enumerate(lst):
+        t = ins["tag"]
+        is_last = (i == len(lst) - 1 and tail_ok) or (i + 1 < len(lst) and lst[i + 1]["tag"] == "break")
+        if t == "field":
+            base = ins["type"].partition(":")[0]
+            if base in ("string", "encoded_string") and ins.get("length") is None and not is_last:
+                ins["length"] = str(len(ins["value"])) if ins.get("value") is not None else "3"
+            elif base == "blob" and not is_last:
+                ins["type"] = "char"
+        elif t == "array":
+            if ins.get("length") is None and not is_last:
+                ins["length"] = "2"
+        elif t == "chunked":
+            canonicalise(ins["body"], is_last)
+        elif t == "switch":
+            for c in ins["cases"]:
+                canonicalise(c["body"], is_last)
+
+
 @st.composite
-def trees(draw, features=None, min_decls=2, max_decls=9, max_packets=3):
+def trees(draw, features=None, min_decls=2, max_decls=9, max_packets=3, canonical=False):
     f = dict(DEFAULT_FEATURES)
     if features:
         f.update(features)
     g = _Gen(draw, f)
+    g.canonical = canonical
     # mandatory enums
     fam = g.gen_enum("net", name="PacketFamily", nmin=1, nmax=4)
     act = g.gen_enum("net", name="PacketAction", nmin=1, nmax=4)
@@ -589,7 +613,10 @@ def trees(draw, features=None, min_decls=2, max_decls=9, max_packets=3):
 
 
 def _gen_struct_body(self, dir_):
-    return self.gen_body(dir_, lex=False, reached_optional=False, depth=0, max_n=6)
+    body, ctx = self.gen_body(dir_, lex=False, reached_optional=False, depth=0, max_n=6)
+    if getattr(self, "canonical", False):
+        canonicalise(body, True)
+    return body, ctx
 
 
 _Gen.gen_struct_body = _gen_struct_body
